@@ -92,11 +92,21 @@ func genesisEq(id string, g1, g2 *types.GenesisState) {
 
 // genesisState: delegations, a mixed unbonding bucket, pending redelegations (optionally a
 // merged fan-in record) and a weight-change snapshot.
-func genesisState(k int) *State {
+// decay: asset 0 carries a reward-weight decay schedule (symbolic rate, interval and a decay clock
+// anywhere up to the block time, i.e. the export happens partway through an interval).
+func genesisState(k int, decay bool) *State {
 	// share prices 1 and no live reward machinery: export/import only copies the numbers, and the
 	// continuation steps stay in linear arithmetic; reward histories are installed as opaque data
 	st := Build([]Pos{{0, 0, 0}, {0, 1, 0}, {1, 1, 0}, {1, 0, 1}}, Opts{NVals: 3, NDenoms: 2, UnitPrice: true, Params: true})
 	e := st.E
+	if decay {
+		a, _ := e.K.GetAssetByDenom(e.Ctx, Denoms[0])
+		a.RewardChangeRate = nd.DecRange("crate", "0.000000000000000001", "2")
+		a.RewardChangeInterval = nd.DurRange("civ", 1, int64(366*24*time.Hour))
+		a.LastRewardChangeTime = nd.TimeRange("clast", TLo, THi)
+		nd.Assume(!a.LastRewardChangeTime.After(st.T0))
+		_ = e.K.SetAsset(e.Ctx, a)
+	}
 	for v := 0; v < 2; v++ {
 		info, _ := e.K.GetAllianceValidatorInfo(e.Ctx, Vals[v])
 		info.GlobalRewardHistory = []types.RewardHistory{{Denom: env.BondDenom, Alliance: Denoms[0], Index: nd.DecRange("gidx_"+string(rune('0'+v)), "0", Pow12)}}
@@ -135,7 +145,7 @@ func reimport(e *env.Env, g *types.GenesisState) *env.Env {
 func H_C18_export2() {
 	id := "C18.export2"
 	k := nd.Choice("merged", 2)
-	st := genesisState(k)
+	st := genesisState(k, nd.Choice("decay", 2) == 1)
 	e := st.E
 	var g1, g2 *types.GenesisState
 	nd.Reach(id)
@@ -155,7 +165,7 @@ func H_C18_cont() {
 	id := "C18.cont"
 	k := nd.Choice("merged", 2)
 	op := nd.Choice("op", 4)
-	st := genesisState(k)
+	st := genesisState(k, false)
 	e1 := st.E
 	var e2 *env.Env
 	if !NoPanic(id, func() { e2 = reimport(e1, e1.K.ExportGenesis(e1.Ctx)) }) {
